@@ -23,3 +23,6 @@ def run(ctx):
     # the interchange of metadata / schema bytes through dicts (asdict, pickle, copy): guards written in the glue
     P = ctx.program()
     lib_kind.length_guard(ctx, P, lambda k, f: f.startswith("write_") or f.startswith("parse_") or "metadata" in f, tus=["module"])
+    from . import lib_schema
+    from sa.schema import load_schemas
+    lib_schema.dict_interchange(ctx, P, load_schemas(P))
